@@ -163,8 +163,59 @@ func (d *toyDecomp) Read(p []byte) (int, error) {
 }
 func (d *toyDecomp) Close() error { return nil }
 
-// New returns constructor functions for a named algorithm.
+// Gate lets a check pause one decompression in mid-flight: the first Read of
+// any harness-provided decompressor after the gate was armed signals Reached
+// and blocks until Release is closed. Used to overlap two calls on one pool
+// deterministically.
+type Gate struct {
+	armed   atomic.Bool
+	Reached chan struct{}
+	Release chan struct{}
+}
+
+var currentGate atomic.Pointer[Gate]
+
+// ArmGate installs and arms a fresh gate.
+func ArmGate() *Gate {
+	g := &Gate{Reached: make(chan struct{}), Release: make(chan struct{})}
+	g.armed.Store(true)
+	currentGate.Store(g)
+	return g
+}
+
+// DisarmGate removes the gate (a decompression blocked on it stays blocked
+// until Release is closed).
+func DisarmGate() { currentGate.Store(nil) }
+
+type gated struct {
+	connect.Decompressor
+	fresh bool
+}
+
+func (g *gated) Reset(r io.Reader) error {
+	g.fresh = true
+	return g.Decompressor.Reset(r)
+}
+
+func (g *gated) Read(p []byte) (int, error) {
+	if g.fresh {
+		g.fresh = false
+		if gt := currentGate.Load(); gt != nil && gt.armed.CompareAndSwap(true, false) {
+			close(gt.Reached)
+			<-gt.Release
+		}
+	}
+	return g.Decompressor.Read(p)
+}
+
+// New returns constructor functions for a named algorithm. Decompressors are
+// wrapped so that a Gate can pause them.
 func New(name string) (func() connect.Decompressor, func() connect.Compressor) {
+	d, c := newRaw(name)
+	return func() connect.Decompressor { return &gated{Decompressor: d()} }, c
+}
+
+func newRaw(name string) (func() connect.Decompressor, func() connect.Compressor) {
 	switch name {
 	case "gzip":
 		return func() connect.Decompressor { return &gzip.Reader{} },
